@@ -353,9 +353,11 @@ fn string_from_attrs(param: &abi_ast::Param, emitter: &dyn Emitter) -> Result<Op
             let user_len = de.accept_value::<u32>("len")?;
             let user_bs = de.accept_value::<u32>("bs")?;
             if let Some(bs) = user_bs {
-                if bs.value == 0 {
+                // (strings are padded to a multiple of the block size in memory)
+                const MAX_BLOCK_SIZE: u32 = 1 << 16;
+                if bs.value == 0 || bs.value > MAX_BLOCK_SIZE {
                     return Err(emitter.as_sized().emit(error!(
-                        message("block size for '{}' must be nonzero", param.format_char),
+                        message("block size for '{}' must be from 1 to {MAX_BLOCK_SIZE}", param.format_char),
                         primary(bs, ""),
                     )));
                 }
